@@ -49,12 +49,25 @@ CLAIMED = {
             "for <= 4/5 packs with UNBOUNDED positive revision counts against an arbitrary valid distribution; L3: the real "
             "_do_autopack over stub packs. L1 and L2 together give the property for every collection within those bounds.",
             "total = sum of per-pack counts (CombinedGraphIndex.key_count); plan execution (packer, I/O) outside"),
+    "C11": ("smart add versions exactly the intended paths (the walk of inventory trees)",
+            "The real MutableInventoryTree.smart_add / _SmartAddHelper over a table of file-system nodes (bounded tree "
+            "shapes) whose facts are SYMBOLIC per node - already versioned, matches an ignore pattern, nested tree, newline "
+            "in the name, kind of a leaf - with <= 2 named paths in any order (or none), recursion on/off, an optional "
+            "control directory and conflict helper file: named paths and their unversioned parents are added even when "
+            "ignored; a control file name or an unversionable named file is refused with nothing applied; the recursive "
+            "walk adds exactly the unversioned children that are not ignored / control / unversionable / ill-named / "
+            "helper files / nested trees, descends only into versioned or just-added directories, reports the ignored "
+            "ones, and the applied delta carries one correct row per added path. Real trees, the ignore matcher (C48), "
+            "unicode normalisation, case-insensitive file systems, git trees are outside.",
+            "file system, inventory lookups, ignore answers and nested-tree detection are stubs over the node table; "
+            "inventory entries are the real compiled ones built from concrete names"),
     "C12": ("'remove' never deletes uncommitted work without --force (kernel)",
             "The real InventoryWorkingTree.remove over a table of files with SYMBOLIC names, each unchanged / modified / "
             "newly added / unknown / versioned-but-missing, with keep or delete and with / without force: keeping touches "
             "nothing on disk; deleting without force moves every unknown, newly added or modified file to a backup name "
-            "instead of deleting it and deletes only unchanged versioned files; force deletes; versioned files (and only "
-            "they) are unversioned. Directories, revert (_alter_files) and merge helpers are outside.",
+            "that is free in the TREE (an earlier backup NAME.~1~ is never overwritten, whatever the process's working "
+            "directory) instead of deleting it and deletes only unchanged versioned files; force deletes; versioned files "
+            "(and only they) are unversioned. Directories, revert (_alter_files) and merge helpers are outside.",
             "tree queries and osutils file operations are stubs over the table; is_inside_any is a validated model; the "
             "compiled InventoryDelta class is replaced by a list"),
     "C13": ("rename journal, rollback and the apply phases (single failure)",
@@ -78,8 +91,10 @@ CLAIMED = {
             "leaves THIS alone, THIS = BASE takes OTHER's value, identical changes do nothing and never conflict, changes "
             "of different attributes by the two sides are both applied (union), different changes of the same attribute "
             "are recorded as one path conflict describing both sides; same for the executable bit incl. file status and "
-            "final kind. Contents / kinds (_do_merge_contents), entry enumeration over real trees, LCA / weave merge types "
-            "and entries missing from a tree are outside.",
+            "final kind. The per-entry loop of _compute_transform over a symbolic sequence of entries (changed / unchanged / "
+            "copied, any content status): every entry's name, content and executable steps run once, in order, and the "
+            "executable step sees the content status of that entry alone. Contents / kinds (_do_merge_contents), entry "
+            "enumeration over real trees, LCA / weave merge types and entries missing from a tree are outside.",
             "trees and transform are recording stubs; the entry exists in all three trees"),
     "C18": ("merge decision rules",
             "Full property for Merge3Merger._three_way and _lca_multi_way: values are unbounded integers standing for "
@@ -105,8 +120,9 @@ CLAIMED = {
             "source, requested revision anywhere on the source's left-hand history): tip moves iff the requested revision "
             "properly descends from it (or overwrite), stays when already contained, DivergedBranches otherwise, the "
             "recorded revno is the left-hand length, append-only refuses moves that drop the old tip from the left-hand "
-            "history, revisions are fetched before the tip moves. The real graph algorithms, arbitrary DAGs, ghosts, bound "
-            "targets and fetching are outside.",
+            "history, revisions are fetched before the tip moves. GenericInterBranch.push into a branch bound to a master "
+            "(the bound branch any number of revisions behind it): the master decides first, and when it refuses neither tip "
+            "moves. The real graph algorithms, arbitrary DAGs, ghosts, pull into bound branches and fetching are outside.",
             "graph answers (heads, distance, left-hand ancestry) are computed from the symbolic sizes; branches are stubs "
             "around the real classes"),
     "C22": ("numeric revision specifiers (kernel)",
@@ -171,8 +187,11 @@ CLAIMED = {
             "makes a reference server walk include exactly the map's keys (plus the null revision when reached and not "
             "stopped) and count equals the number of included keys. (2) The recipe bytes produced by "
             "RemoteRepository._serialise_search_recipe / SearchResult.get_network_struct are parsed back by the server "
-            "into the same start keys, exclude keys and count. The compiled breadth-first searcher and "
-            "limited_search_result_from_parent_map are outside.",
+            "into the same start keys, exclude keys and count. (3) SearchResult.refine between two repositories of a "
+            "stack (graph shape and which repository holds which revision symbolic): the refined description makes the next "
+            "repository walk exactly the continuation of the first walk - nothing missing, nothing sent twice, count "
+            "consistent (one known finding: a wanted revision with an already seen parent). The compiled breadth-first "
+            "searcher and limited_search_result_from_parent_map are outside.",
             "revision ids contain no space / newline; the server walk is a reference model in the harness"),
     "C34": ("git commit field round trip",
             "import_commit then export_commit on symbolic times, time zones, flags, message (present/None) and the bzr "
@@ -207,9 +226,10 @@ CLAIMED = {
             "The real BzrUploader.upload_tree (with rename_remote / finish_renames / upload_file / delete_remote_file and "
             "the uploaded-revision bookkeeping) from an arbitrary consistent state: the remote directory equals the "
             "previously uploaded tree, the new tree differs by any mix of unchanged / modified / removed / added / "
-            "renamed / renamed-and-modified files whose names are SYMBOLIC (the solver decides swaps, chains and reuse of "
-            "vacated names); afterwards the remote directory holds exactly the new tree's files with the new contents "
-            "and the uploaded revision id is recorded. Directories, symlinks, kind changes, executable bits, ignore "
+            "renamed / renamed-and-modified files and removed / renamed directories holding one file (unchanged or "
+            "modified) whose names are SYMBOLIC (the solver decides swaps, chains and reuse of "
+            "vacated names); afterwards the remote directory holds exactly the new tree's entries with the new contents "
+            "and the uploaded revision id is recorded. Larger directories, symlinks, kind changes, executable bits, ignore "
             "rules and full uploads are outside.",
             "remote transport = flat map refusing renames onto occupied names; the tree delta is computed by the harness"),
     "C45": ("eol filter stack",
@@ -238,13 +258,15 @@ CLAIMED = {
             "Full property for breezy.cmdline.split: quote-then-split round trip for <= 2 arguments of <= 3/4 symbolic chars, "
             "conservation of characters for arbitrary command lines, both single-quote settings.",
             "reference quoter as stated in the evidence"),
-    "C51": ("rebase plan generation (simple plans) and persistence",
+    "C51": ("rebase plan generation (simple and transpose plans) and persistence",
             "(1) generate_simple_plan over histories whose SHAPE is symbolic (revisions and parents are symbolic ids; "
             "chains, diamonds inside the rebased set, merges from outside): exactly the revisions of the set are "
             "rewritten, every new parent is the new base, the new id of a rewritten revision or a revision outside the "
             "set - never the old id of a rewritten revision. (2) marshall_rebase_plan / unmarshall_rebase_plan round trip "
-            "with symbolic revno, revision ids and parents. generate_transpose_plan, rebase_todo and vcsgraph's own "
-            "topological sort / heads are outside.",
+            "with symbolic revno, revision ids and parents. (3) generate_transpose_plan over the same symbolic histories "
+            "with 1..2 replaced revisions listed in either order: exactly the descendants of replaced revisions are "
+            "rewritten and every new parent is a revision that stays, a replacement, or the new id of a rewritten revision. "
+            "rebase_todo and vcsgraph's own topological sort / heads are outside.",
             "graph answers computed from the symbolic parent table; topo_sort replaced by the table's id order"),
 }
 
